@@ -3037,4 +3037,165 @@ instance (W : World) (t : Table) (M : Str) (rank : Str → Nat) : Decidable (Loa
       ks.2.via ∈ baseKeys t M ∨ ks.2.via ∈ keysN (ks.2.asAttr W)) := inferInstance
   decidable_of_iff _ (loaded_iff W t M rank).symm
 
+/-! ## the export is a function of the entries alone -/
+
+theorem entryAttrs_items (t t' : Table) (h : t.items = t'.items) : t.entryAttrs = t'.entryAttrs := by
+  funext k
+  simp only [Table.entryAttrs, h]
+
+theorem orderKeysLoop_items (W : World) (t t' : Table) (h : t.items = t'.items) (fm : Option Str) (l : List (Str × Sym)) :
+    ∀ o, orderKeysLoop W t fm l o = orderKeysLoop W t' fm l o := by
+  induction l with
+  | nil => intro o; rfl
+  | cons ks rest ih =>
+    obtain ⟨k, s⟩ := ks
+    intro o
+    simp only [orderKeysLoop, entryAttrs_items t t' h, h, ih]
+
+theorem toJsonRows_items (W : World) (t t' : Table) (h : t.items = t'.items) (ks : List Str) :
+    ∀ acc, toJsonRows W t ks acc = toJsonRows W t' ks acc := by
+  induction ks with
+  | nil => intro acc; rfl
+  | cons k rest ih =>
+    intro acc
+    simp only [toJsonRows, Table.get, h, ih]
+
+/-- `to_json` reads the entries (`__items` / `__paths`) and nothing else: not the completed marks, and there is no other state -/
+theorem toJson_items (W : World) (t t' : Table) (h : t.items = t'.items) (fm : Option Str) : toJson W t fm = toJson W t' fm := by
+  unfold toJson orderKeys
+  rw [orderKeysLoop_items W t t' h fm, toJsonRows_items W t t' h, h]
+
+/-! ## exported index paths are canonical decimals -/
+
+/-- what `str(index)` produces: ASCII digits, no sign, no leading zero (except "0" itself) -/
+def isCanonicalDec (s : Str) : Bool :=
+  !s.isEmpty && s.all (fun c => (Str.decVal c).isSome) && (s.head? != some '0' || s.length == 1)
+
+theorem digitChar_props : ∀ d, d < 10 → (Str.decVal (Str.digitChar d)).isSome = true ∧ (1 ≤ d → Str.digitChar d ≠ '0') := by decide
+
+theorem natToDec_digits (n : Nat) : Str.natToDec n ≠ [] ∧ (∀ c ∈ Str.natToDec n, (Str.decVal c).isSome = true) ∧
+    (1 ≤ n → (Str.natToDec n).head? ≠ some '0') := by
+  induction n using Nat.strongRecOn with
+  | _ n ih =>
+    rw [Str.natToDec]
+    split
+    · rename_i h
+      obtain ⟨h1, h2⟩ := digitChar_props n h
+      refine ⟨by simp, ?_, ?_⟩
+      · intro c hc; simp only [List.mem_singleton] at hc; rw [hc]; exact h1
+      · intro hn; simp only [List.head?_cons, ne_eq, Option.some.injEq]; exact h2 hn
+    · rename_i h
+      obtain ⟨a, b, c⟩ := ih (n / 10) (by omega)
+      obtain ⟨h1, _⟩ := digitChar_props (n % 10) (by omega)
+      refine ⟨by simp, ?_, ?_⟩
+      · intro x hx
+        rcases List.mem_append.mp hx with hx | hx
+        · exact b x hx
+        · simp only [List.mem_singleton] at hx; rw [hx]; exact h1
+      · intro _
+        have := c (by omega)
+        cases hq : Str.natToDec (n / 10) with
+        | nil => exact absurd hq a
+        | cons y ys => rw [hq] at this; simpa using this
+
+theorem natToDec_canonical (n : Nat) : isCanonicalDec (Str.natToDec n) = true := by
+  obtain ⟨a, b, c⟩ := natToDec_digits n
+  unfold isCanonicalDec
+  have h1 : (Str.natToDec n).isEmpty = false := by
+    cases h : Str.natToDec n with
+    | nil => exact absurd h a
+    | cons _ _ => rfl
+  have h2 : (Str.natToDec n).all (fun c => (Str.decVal c).isSome) = true := List.all_eq_true.mpr b
+  simp only [h1, h2, Bool.not_false, Bool.true_and, Bool.or_eq_true, bne_iff_ne, ne_eq, beq_iff_eq]
+  by_cases hn : 1 ≤ n
+  · exact Or.inl (c hn)
+  · have : n = 0 := by omega
+    subst this
+    right
+    rw [Str.natToDec]; simp
+
+/-- every component of an encoded path is a canonical decimal -/
+theorem encPath_components (p : Path) (hp : p ≠ []) :
+    ∀ comp ∈ Str.splitOn '.' (encPath p), isCanonicalDec comp = true := by
+  unfold encPath
+  rw [splitOn_join _ (by simpa using hp) (by
+    intro x hx
+    obtain ⟨n, _, hn⟩ := List.mem_map.mp hx
+    rw [← hn]; exact (natToDec_spec n).2.1)]
+  intro comp hc
+  obtain ⟨n, _, hn⟩ := List.mem_map.mp hc
+  rw [← hn]; exact natToDec_canonical n
+
+/-! ## canonical decimals are exactly the strings that `int` / `str` round-trip -/
+
+theorem digitChar_decVal (c : Char) (d : Nat) (h : Str.decVal c = some d) : d < 10 ∧ Str.digitChar d = c := by
+  unfold Str.decVal at h
+  split at h
+  · rename_i hc
+    simp only [Option.some.injEq] at h
+    refine ⟨by omega, ?_⟩
+    unfold Str.digitChar
+    have : 48 + d = c.toNat := by omega
+    rw [this]
+    exact Char.ofNat_toNat c
+  · cases h
+
+theorem canonical_roundtrip (s : Str) (h : isCanonicalDec s = true) :
+    ∃ n, Str.decToNat? s = some n ∧ Str.natToDec n = s := by
+  have key : ∀ (r : Str), r ≠ [] → (∀ c ∈ r, (Str.decVal c).isSome = true) → (r.reverse.head? ≠ some '0' ∨ r.length = 1) →
+      ∃ n, Str.decFold 0 r.reverse = some n ∧ Str.natToDec n = r.reverse := by
+    intro r
+    induction r with
+    | nil => intro h; exact absurd rfl h
+    | cons c t ih =>
+      intro _ hd hz
+      have hc := hd c (by simp)
+      cases hv : Str.decVal c with
+      | none => rw [hv] at hc; cases hc
+      | some d =>
+        obtain ⟨hd10, hdc⟩ := digitChar_decVal c d hv
+        cases ht : t with
+        | nil =>
+          refine ⟨d, by simp [Str.decFold, hv], ?_⟩
+          rw [Str.natToDec]; simp [hd10, hdc]
+        | cons y ys =>
+          have htne : t ≠ [] := by rw [ht]; simp
+          have hrev : (c :: t).reverse = t.reverse ++ [c] := by simp
+          have hhead : t.reverse.head? ≠ some '0' := by
+            rcases hz with h | h
+            · rw [hrev] at h
+              cases hq : t.reverse with
+              | nil => exact absurd (List.reverse_eq_nil_iff.mp hq) htne
+              | cons z zs => rw [hq] at h; simpa using h
+            · rw [ht] at h; simp at h
+          obtain ⟨m, hm1, hm2⟩ := ih htne (fun x hx => hd x (by simp [hx])) (Or.inl hhead)
+          have hm : 1 ≤ m := by
+            rcases Nat.lt_or_ge m 1 with hlt | hge
+            · exfalso
+              have : m = 0 := by omega
+              subst this
+              rw [Str.natToDec] at hm2
+              simp at hm2
+              rw [← hm2] at hhead
+              exact hhead (by decide)
+            · exact hge
+          refine ⟨m * 10 + d, ?_, ?_⟩
+          · rw [← ht, hrev, decFold_append, hm1]
+            simp [Str.decFold, hv]
+          · rw [← ht, hrev, Str.natToDec]
+            have h10 : ¬ (m * 10 + d < 10) := by omega
+            simp only [h10, if_false]
+            have h1 : (m * 10 + d) / 10 = m := by omega
+            have h2 : (m * 10 + d) % 10 = d := by omega
+            rw [h1, h2, hm2, hdc]
+  unfold isCanonicalDec at h
+  simp only [Bool.and_eq_true, Bool.not_eq_true', List.isEmpty_eq_false_iff, List.all_eq_true, Bool.or_eq_true, bne_iff_ne, ne_eq, beq_iff_eq] at h
+  obtain ⟨⟨h1, h2⟩, h3⟩ := h
+  obtain ⟨n, hn1, hn2⟩ := key s.reverse (by simpa using h1) (fun c hc => h2 c (by simpa using hc)) (by simpa using h3)
+  simp only [List.reverse_reverse] at hn1 hn2
+  refine ⟨n, ?_, hn2⟩
+  cases s with
+  | nil => exact absurd rfl h1
+  | cons c cs => exact hn1
+
 end Tranp.SymbolJson
